@@ -16,11 +16,30 @@ def step_run(agree, monitors, quick=160, thorough=3000):
             'agree': agree, 'monitors': monitors}
 
 
-NODE_VO = ['Node.vo', 'Corr.vo', 'Monitors.vo']
+NODE_VO = ['Node.vo', 'Corr.vo', 'Monitors.vo', 'LeaderDefs.vo', 'QuorumDefs.vo', 'CorrComp.vo', 'CorrAgg.vo']
 STEP_ASSUME = ['symbolic hashing: SHA-512/256 collision-free on the modelled pre-images and never all-zero (licensed by the C20 pre-image theorems)',
                'ideal signatures (EUF-CMA, strict verification) for Ed25519',
                'every task is a sequential process fed by FIFO channels; tokio/mpsc/RocksDB behave as documented',
                'harness abstraction: keys -> ranks, digests -> symbolic terms, signatures -> provenance (each classified by verifying it against the expected content)']
+
+def wire_layout(case, v):
+    # consensus message: [all; enc; dec f; dec t; trailing; pre-images; sha==digest; real round trip; verify unchanged]
+    # mempool message:   [all; enc; dec f; dec t; trailing; real round trip]
+    return ([1, 2, 3, 4, 5], [6, 7, 8]) if len(v) == 9 else ([1, 2, 3, 4], [5])
+
+
+def malformed_layout(case, v):
+    # [...model-vs-implementation flags...; MONITOR: the real decoder did not panic]
+    return (list(range(1, len(v) - 1)), [len(v) - 1])
+
+
+def malformed_layout_nomon(case, v):
+    return (list(range(1, len(v) - 1)), [])
+
+
+CODEC_RULE = ('real bincode (de)serialisation of every consensus and mempool message variant with real keys/signatures (payload 0..5, vote lists 0..7, TC present/absent) compared byte for byte with the '
+              'model encoders/decoders and the digest pre-images (SHA-512 recomputed by the harness); malformed stream: truncation, bit flips, corrupted length fields/enum tags/option tags, '
+              'messages of the other component, random bytes, key strings of wrong length/alphabet/padding; non-trivial = every case; distinct = distinct byte strings')
 
 PROPS = {
     'C17': {
@@ -64,8 +83,8 @@ PROPS = {
     },
     'C09': {
         'vo': NODE_VO,
-        'sites': ['g_round_gate', 'g_vote_stale', 'g_timeout_stale', 'g_tc_stale', 'g_advance_guard', 'g_advance_next'],
-        'corr': [step_run([NET, PROP], [M_C09])],
+        'sites': ['g_leader_index', 'g_round_gate', 'g_vote_stale', 'g_timeout_stale', 'g_tc_stale', 'g_advance_guard', 'g_advance_next'],
+        'corr': [step_run([NET, PROP], [M_C09]), {'name': 'leader', 'bin': 'comp', 'mode': 'leader', 'quick': 150, 'thorough': 3000, 'agree': [1], 'monitors': [2, 3]}],
         'rule': STEP_RULE, 'assumptions': STEP_ASSUME + ['the boot event (first lines of run()) happens once, before any proposal'],
     },
     'C10': {
@@ -76,8 +95,68 @@ PROPS = {
     },
     'C19': {
         'vo': NODE_VO,
-        'sites': ['g_quorum_consensus', 'g_vote_stale', 'g_timeout_stale'],
-        'corr': [step_run([NET, PROP, STATE], [M_C19])],
+        'sites': ['g_quorum_consensus', 'g_qcm_threshold', 'g_qcm_reset', 'g_tcm_threshold', 'g_tcm_reset', 'g_qc_weight', 'g_tc_weight', 'g_qc_entry_stake', 'g_tc_entry_stake', 'g_vote_stale', 'g_timeout_stale'],
+        'corr': [step_run([NET, PROP, STATE], [M_C19]), {'name': 'aggregator', 'bin': 'comp', 'mode': 'aggregator', 'quick': 150, 'thorough': 3000, 'agree': [1], 'monitors': [2, 3]}],
+        'rule': STEP_RULE, 'assumptions': STEP_ASSUME,
+    },
+    'C11': {
+        'vo': ['BatchMakerDefs.vo', 'CorrComp.vo', 'CorrBatch.vo'],
+        'sites': ['g_batch_full', 'g_timer_seals', 'g_seal_index_guarded'],
+        'corr': [{'name': 'batchmaker', 'bin': 'comp', 'mode': 'batchmaker', 'quick': 120, 'thorough': 2000, 'agree': [1, 2], 'monitors': [3, 4, 5, 6, 7, 8]},
+                 {'name': 'batchmaker-bench', 'bin': 'comp', 'mode': 'batchmaker', 'features': 'bench', 'quick': 120, 'thorough': 2000, 'agree': [1, 2], 'monitors': [3, 4, 5, 6, 7, 8]}],
+        'rule': 'real BatchMaker + Processor (both builds: default and --features benchmark) with virtual time and the network tap: transaction/timer event sequences, '
+                'batch sizes 1, 2..9, 10..60, 100, transaction lengths 0, 1, batch_size-1, batch_size, batch_size+1, 9 and random, "sample" transactions starting with 0; '
+                'non-trivial = at least one batch sealed; distinct = distinct event sequences',
+        'assumptions': ['SHA-512 is not modelled: that key and announced digest are the hash of the exact serialized bytes is compared on the real Processor (hash recomputed by the harness)',
+                        'tokio timer and mpsc semantics'],
+    },
+    'C12': {
+        'vo': ['QuorumWaiterDefs.vo', 'QuorumDefs.vo', 'CorrComp.vo', 'CorrQW.vo'],
+        'sites': ['g_qw_threshold', 'g_quorum_mempool'],
+        'corr': [{'name': 'quorumwaiter', 'bin': 'comp', 'mode': 'quorumwaiter', 'quick': 150, 'thorough': 3000, 'agree': [1], 'monitors': [2]}],
+        'rule': 'real QuorumWaiter task: committees of 1..8 (equal and weighted incl. zero stakes), 1..3 queued batches, acknowledgement orders = random permutations of the other members plus '
+                'sometimes an authority unknown to the committee, handlers handed over in a different random order; non-trivial = committee of more than one; distinct = distinct (stakes, orders)',
+        'assumptions': ['an acknowledgement means the peer stored the batch (the peer\'s honesty, not this node\'s code)', 'FuturesUnordered yields handlers in completion order'],
+    },
+    'C16': {
+        'vo': ['StoreDefs.vo', 'CorrComp.vo', 'CorrStore.vo'],
+        'sites': [],
+        'corr': [{'name': 'store', 'bin': 'comp', 'mode': 'store', 'quick': 120, 'thorough': 2000, 'agree': [1], 'monitors': [2]}],
+        'rule': 'real Store (RocksDB) used through three cloned handles on one thread: random write/read/notify-read sequences over 1..4 keys with concurrent waiters, and drop-everything-and-reopen; '
+                'non-trivial = contains a notify-read; distinct = distinct command sequences',
+        'assumptions': ['tokio mpsc FIFO/linearisation of commands; RocksDB durability and get-after-put'],
+    },
+    'C20': {
+        'vo': ['Codec.vo', 'Base64Defs.vo', 'WireDefs.vo', 'CorrComp.vo', 'CorrCodec.vo'],
+        'sites': ['g_pk_decode_exact'],
+        'corr': [{'name': 'wire', 'bin': 'codec', 'mode': 'wire', 'emit': 'codec_wire', 'quick': 150, 'thorough': 3000, 'layout': wire_layout},
+                 {'name': 'malformed', 'bin': 'codec', 'mode': 'malformed', 'emit': 'codec_malformed', 'quick': 150, 'thorough': 3000, 'layout': malformed_layout_nomon}],
+        'rule': CODEC_RULE,
+        'assumptions': ['SHA-512/256 collision resistance on the modelled pre-images', 'bincode 1.3 default options and serde derive layouts as modelled (checked byte for byte by the correspondence)',
+                        'digest pre-image layouts are hand-written from messages.rs `impl Hash` (compared with the real digest() on every case), not regenerated'],
+    },
+    'C18': {
+        'vo': ['Codec.vo', 'Base64Defs.vo', 'WireDefs.vo', 'CorrComp.vo', 'CorrCodec.vo'],
+        'sites': ['g_pk_decode_exact', 'g_sk_decode_exact'],
+        'corr': [{'name': 'keys', 'bin': 'codec', 'mode': 'keys', 'emit': 'codec_keys', 'quick': 150, 'thorough': 3000, 'agree': [1, 2, 3, 4], 'monitors': [5]}],
+        'rule': 'random byte strings of every length mod 3, public and secret keys: real encode_base64/decode_base64 and base64 0.13 vs the Gallina model; distinct = distinct inputs',
+        'assumptions': ['Ed25519 (dalek: sign, verify_strict, verify_batch) correct and unforgeable: NOT formalised; that half of C18 is differential only',
+                        'base64 0.13 STANDARD config as modelled from its decode.rs (compared on every case)'],
+    },
+    'C14': {
+        'vo': ['ReliableDefs.vo', 'CorrComp.vo', 'CorrReliable.vo'],
+        'sites': [],
+        'corr': [{'name': 'reliable', 'bin': 'sock', 'mode': 'reliable', 'emit': 'reliable', 'quick': 40, 'thorough': 400, 'agree': [1, 2, 3], 'monitors': [4, 5, 6, 7, 8, 9], 'timeout': 300}],
+        'rule': 'socket mode: the real ReliableSender (no tap) against a scripted loopback TCP peer speaking the real length-delimited framing: 2..4 connections per case made of down phases, full rounds, '
+                'early-close rounds and a final answer-everything round; sends, handle drops, replies, closes before/after any frame, refused connects, 7 MB frames to hit the write-error path; '
+                'the abstract event list is derived from what was observed; a case that times out is counted inconclusive, never as a disagreement',
+        'assumptions': ['TCP delivers a prefix of what was written; the peer replies only to frames it received', 'frames written but never taken by the peer are not observable (c14_lost_write justifies reading them as failed writes)',
+                        'back-off timing is not compared; a sender blocked inside a large write consumes neither replies nor new messages (not modelled)'],
+    },
+    'C04': {
+        'vo': NODE_VO,
+        'sites': ['g_block_stake', 'g_vote_stake', 'g_timeout_stake', 'g_qc_entry_stake', 'g_qc_weight', 'g_tc_entry_stake', 'g_tc_weight', 'g_quorum_consensus', 'g_vote_stale', 'g_timeout_stale', 'g_tc_stale'],
+        'corr': [step_run([NET, COMMIT, MEM, PROP, RES, STATE], [M_C04])],
         'rule': STEP_RULE, 'assumptions': STEP_ASSUME,
     },
 }
